@@ -261,7 +261,8 @@ def parseCtx : String → Option Ctx
   | "elemStore" => some .elemStore | "fieldStore" => some .fieldStore | "ptrStore" => some .ptrStore
   | "litElem" => some .litElem | "box" => some .box | "unbox" => some .unbox
   | "recvValue" => some .recvValue | "methodValue" => some .methodValue
-  | "boundCall" => some .boundCall | "ifaceCall" => some .ifaceCall | _ => none
+  | "boundCall" => some .boundCall | "ifaceCall" => some .ifaceCall
+  | "deferRecv" => some .deferRecv | "goRecv" => some .goRecv | "deref" => some .deref | _ => none
 
 /-- `ctx>ctx>x/path` -/
 def parseExpr (s : String) : Option Expr :=
